@@ -307,7 +307,7 @@ func (d *Decl) Emit(pkg string) string {
 	case "ctx-injector":
 		sb.WriteString("type X9 struct{ R string }\n\nfunc Pre9(c context.Context) *X9 { return &X9{R: \"pre\"} }\n\nvar _ = kessoku.Inject[*X9](\"Pre\", kessoku.Provide(Pre9))\n\n")
 	case "pkg-ident-ctx":
-		sb.WriteString("// a package-level identifier that happens to be called ctx\nvar ctx = context.Background\n\n")
+		sb.WriteString("// a package-level context that happens to be called ctx\nvar ctx = context.Background()\n\n")
 	}
 	sb.WriteString(d.EmitBody(true))
 	return sb.String()
